@@ -39,6 +39,8 @@ WORLDS = {
     "W8-fb11": (["WSIZE=8", "FP_PRIME=16", "BN_PRECI=64", "FB_POLYN=11", "RAND=CALL"], ""),
     "W16": (["WSIZE=16", "FP_PRIME=32", "BN_PRECI=128", "FB_POLYN=17", "RAND=CALL"], ""),
     "W64-255": (["FP_PRIME=255"], ""),
+    "W64-255-edext": (["FP_PRIME=255", "ED_METHD=EXTND;LWNAF;COMBS;INTER"], ""),
+    "W8-edext": (["WSIZE=8", "FP_PRIME=16", "BN_PRECI=64", "FB_POLYN=17", "RAND=CALL", "ED_METHD=EXTND;LWNAF;COMBS;INTER"], ""),
     "W64-381": (["FP_PRIME=381"], ""),
     "W64-dyn-san": (["ALLOC=DYNAMIC"], SAN),
     "W64-mt": (["MULTI=PTHREAD"], ""),
